@@ -352,6 +352,8 @@ enum Mode {
     Script(Vec<Step>),
     /// `ChainComplexBase::reduced()`
     ReducedApi,
+    /// `reduced().reduced()` — the second call starts from summands that already carry transfer maps
+    ReducedTwice,
 }
 
 #[derive(Clone)]
@@ -390,6 +392,7 @@ impl<R: Clone> Run<R> {
         let m = match &self.mode {
             Mode::Reduce => "reduce".to_string(),
             Mode::ReducedApi => "reduced()".to_string(),
+            Mode::ReducedTwice => "reduced().reduced()".to_string(),
             Mode::Script(s) => s.iter().map(|st| match st {
                 Step::Spec(i, t, c) => format!("spec({},{},{})", i, pt_txt(*t), pc_txt(*c)),
                 Step::At(i, deep) => format!("at({},{})", i, if *deep { "deep" } else { "shallow" }),
@@ -418,8 +421,8 @@ where R: Sc, for<'x> &'x R: RingOps<R> {
     let li = |j: usize| -> isize { if run.coh { (k - j) as isize } else { j as isize } };
     let d_deg: isize = if run.coh { 1 } else { -1 };
     let lib = if run.coh { c.to_lib_coh() } else { c.to_lib() };
-    if let Mode::ReducedApi = run.mode {
-        let red = lib.reduced();
+    if matches!(run.mode, Mode::ReducedApi | Mode::ReducedTwice) {
+        let red = if matches!(run.mode, Mode::ReducedTwice) { lib.reduced().reduced() } else { lib.reduced() };
         let d: Vec<D<R>> = (0..=k).map(|i| D::from_sp(&red.d_matrix(li(i)))).collect();
         let m: Vec<usize> = (0..=k).map(|i| red[li(i)].rank()).collect();
         let f = (0..=k).map(|i| Some(D::from_sp(&red[li(i)].trans().forward_mat()))).collect();
@@ -457,7 +460,7 @@ where R: Sc, for<'x> &'x R: RingOps<R> {
             script(&mut red, steps);
             red
         }
-        (Mode::ReducedApi, _) => unreachable!(),
+        (Mode::ReducedApi, _) | (Mode::ReducedTwice, _) => unreachable!(),
     };
     let d: Vec<D<R>> = (0..=k).map(|i| D::from_sp(red.matrix(li(i)).unwrap())).collect();
     let m: Vec<usize> = d.iter().map(|x| x.c).collect();
@@ -616,6 +619,7 @@ where R: Sc, for<'x> &'x R: RingOps<R> {
     match &run.mode {
         Mode::Reduce => s.count("mode.reduce"),
         Mode::ReducedApi => s.count("mode.reduced_api"),
+        Mode::ReducedTwice => s.count("mode.reduced_twice"),
         Mode::Script(st) => {
             s.count("mode.script");
             for x in st { match x {
@@ -652,19 +656,22 @@ where R: Sc, for<'x> &'x R: RingOps<R> {
 
     // tracked vectors: count preserved
     let vec_cnt_ok = (0..=k).all(|i| out.vecs[i].len() == run.vecs[i].len() && out.vecs[i].iter().all(|v| v.len() == out.m[i]));
-    if !matches!(run.mode, Mode::ReducedApi) {
+    if !matches!(run.mode, Mode::ReducedApi | Mode::ReducedTwice) {
         s.oracle(vec_cnt_ok, "tracked vectors keep their number and live in the reduced module", &desc, "");
     }
 
-    // homology (library) over PIDs
+    // homology (library) over PIDs.  The library's own Smith normal form may overflow i64 on the UNREDUCED complex
+    // (that is not this property): then the comparison is left to the Lean reference (`redn` line).
     let (h0, h1) = if R::PID && dd_ok {
         let h0 = guard(|| R::lib_homology(c)).flatten();
         let h1 = guard(|| R::lib_homology(&red_cx)).flatten();
-        let ok = h0.is_some() && h0 == h1;
-        s.oracle(ok, "homology of the reduced complex equals homology of the original (library homology)", &desc,
-            &format!("original {:?} reduced {:?}", h0, h1));
+        if h0.is_some() && h1.is_some() {
+            s.oracle(h0 == h1, "homology of the reduced complex equals homology of the original (library homology)", &desc,
+                &format!("original {:?} reduced {:?}", h0, h1));
+        } else { s.count("libhom.unavailable"); }
         (h0, h1)
     } else { (None, None) };
+    let lib_h = h0.is_some() && h1.is_some();
     let hs = |h: &Option<String>| h.clone().unwrap_or_else(|| "?".into());
 
     if let Some(e) = &out.trans_apply {
@@ -698,10 +705,11 @@ where R: Sc, for<'x> &'x R: RingOps<R> {
             s.oracle(!has("FB@"), "forward after backward is the identity of the reduced complex (F B = 1)", &desc, &bad.join(" "));
             s.oracle(!has("Fv@"), "tracked vectors are transported by the forward map (v' = F v)", &desc, &bad.join(" "));
             // Lean: verified checker + independent homology
-            let line = red_line(&data);
-            let hpart = if R::PID { format!("H={}|{}", hs(&h0), hs(&h1)) } else { "H=-".to_string() };
-            let verdict = match bad.first() { None => "ok".to_string(), Some(b) => format!("fail:{}", b) };
-            s.case(&line, &format!("{} {}", verdict, hpart), nontrivial);
+            let mut line = red_line(&data);
+            let hpart = if !R::PID { "H=-".to_string() } else if lib_h { format!("H={}|{}", hs(&h0), hs(&h1)) } else { "heq".to_string() };
+            if R::PID && !lib_h { line = format!("redn{}", &line[3..]); }
+            // the implementation's claim is that its exported state IS a reduction: the expected verdict is always `ok`
+            s.case(&line, &format!("ok {}", hpart), nontrivial);
             // checker self-test: corrupt one entry of F / B / V' (the verdict of the naive oracle is the expected reply)
             if bad.is_empty() && r.chance(if ctx.thorough { 1 } else { 1 }, 3) {
                 let mut mdata = Data { c: data.c.clone(), m: data.m.clone(), d: data.d.clone(), f: data.f.clone(), b: data.b.clone(), v: data.v.clone(), vr: data.vr.clone() };
@@ -714,7 +722,9 @@ where R: Sc, for<'x> &'x R: RingOps<R> {
                     let mbad = failing(&mdata);
                     let verdict = match mbad.first() { None => "ok".to_string(), Some(b) => format!("fail:{}", b) };
                     s.count(if mbad.is_empty() { "selftest.undetectable" } else { "selftest.detected" });
-                    s.case(&red_line(&mdata), &format!("{} {}", verdict, hpart), true);
+                    let mut mline = red_line(&mdata);
+                    if R::PID && !lib_h { mline = format!("redn{}", &mline[3..]); }
+                    s.case(&mline, &format!("{} {}", verdict, hpart), true);
                 }
             }
         }
@@ -752,7 +762,7 @@ where R: Sc, for<'x> &'x R: RingOps<R> {
                 }
                 s.oracle(ok, "tracked vectors are transported by a chain map ((d v)' = d' v')", &desc, &detail);
             }
-            if R::PID && dd_ok {
+            if R::PID && dd_ok && h1.is_some() {
                 let line = format!("hom {}", c.full_txt());
                 s.case(&line, &hs(&h1), nontrivial);
             } else {
@@ -769,7 +779,7 @@ where R: Sc, for<'x> &'x R: RingOps<R> {
     let k = c.k;
     let mut run = match r.below(12) {
         0 => Run::plain(Mode::Reduce, true, threads, k),
-        1 => Run::plain(Mode::ReducedApi, true, threads, k),
+        1 => Run::plain(if r.bool() { Mode::ReducedApi } else { Mode::ReducedTwice }, true, threads, k),
         2 => Run::plain(Mode::Reduce, false, threads, k),
         3 | 4 => { // scripted, no transfer maps, chained vectors
             let vecs = rand_vecs(r, c, true);
@@ -925,7 +935,7 @@ where R: Sc, for<'x> &'x R: RingOps<R> {
         if !thorough && w == 9 && R::TAG == "Q" { continue; } // t2 over Q is slowish in the Lean rational checker
         let fam = format!("builtin:{}", name);
         ctx.s.count("builtin");
-        for mode in [Mode::Reduce, Mode::ReducedApi] {
+        for mode in [Mode::Reduce, Mode::ReducedApi, Mode::ReducedTwice] {
             let run = Run::plain(mode, true, *r.pick(&[1usize, 2, 4, 16]), c.k);
             run_case(ctx, r, "builtin", &c, &run);
         }
@@ -937,12 +947,12 @@ where R: Sc, for<'x> &'x R: RingOps<R> {
         let k = 1 + r.below(6) as usize;
         let (family, c) = match r.below(10) {
             0 | 1 | 2 => {
-                let v = 3 + r.below(if thorough { 5 } else { 4 }) as usize;
+                let v = 3 + r.below(if thorough { 6 } else { 4 }) as usize;
                 let kk = k.min(v - 1).min(if thorough { 6 } else { 4 });
                 { let nf = 1 + r.below(4) as usize; ("simplicial", gen_simplicial::<R>(r, v, kk, nf)) }
             }
             3 => ("planted-dense", gen_planted::<R>(r, k, if thorough { 3 } else { 2 }, 2, true)),
-            _ => ("planted", gen_planted::<R>(r, k, if thorough { 5 } else { 3 }, if thorough { 3 } else { 2 }, false)),
+            _ => { let mp = if thorough { 1 + r.below(6) as usize } else { 3 }; ("planted", gen_planted::<R>(r, k, mp, if thorough { 3 } else { 2 }, false)) }
         };
         if c.d.iter().any(|m| m.a.iter().any(|x| x.t().len() > 6)) { ctx.s.count("input.skipped_large_entries"); continue; }
         if !c.is_complex() {
@@ -957,6 +967,40 @@ where R: Sc, for<'x> &'x R: RingOps<R> {
         } else {
             let run = rand_run(r, &c);
             run_case(ctx, r, family, &c, &run);
+        }
+    }
+}
+
+/// exhaustive small spaces over Z: every 2x2 differential with entries in {-1,0,1,2} (k = 1) and every
+/// complex Z <- Z^2 <- Z with entries in {-2..2} (k = 2), under every pivot type x {One, AnyUnit} (single step, then deep)
+fn exhaustive(ctx: &mut Ctx, r: &mut Rng) {
+    let strategies: Vec<(PivotType, PivotCondition)> = vec![
+        (PivotType::Rows, PivotCondition::One), (PivotType::Cols, PivotCondition::One),
+        (PivotType::Rows, PivotCondition::AnyUnit), (PivotType::Cols, PivotCondition::AnyUnit)];
+    let vals = [-1i64, 0, 1, 2];
+    let mut idx = 0usize;
+    for code in 0..256usize {
+        let e: Vec<i64> = (0..4).map(|t| vals[(code >> (2 * t)) & 3]).collect();
+        let c = Cx { k: 1, n: vec![2, 2], d: vec![D::zero(0, 2), D { r: 2, c: 2, a: e }] };
+        for (si, (t, cond)) in strategies.iter().enumerate() {
+            if !ctx.thorough && (code + si) % 4 != 0 { continue; }
+            idx += 1;
+            let vecs = vec![vec![vec![1, -1]], vec![vec![2, 1]]];
+            let run = Run { vecs, coh: idx % 2 == 0, ..Run::plain(Mode::Script(vec![Step::Spec(1, *t, *cond), Step::All(true)]), true, [1, 2, 4, 16][idx % 4], 1) };
+            run_case(ctx, r, "exhaustive-2x2", &c, &run);
+        }
+    }
+    let rng5 = [-2i64, -1, 0, 1, 2];
+    for code in 0..625usize {
+        let e: Vec<i64> = (0..4).map(|t| rng5[(code / 5usize.pow(t as u32)) % 5]).collect();
+        if e[0] * e[2] + e[1] * e[3] != 0 { continue; }
+        let c = Cx { k: 2, n: vec![1, 2, 1], d: vec![D::zero(0, 1), D { r: 1, c: 2, a: vec![e[0], e[1]] }, D { r: 2, c: 1, a: vec![e[2], e[3]] }] };
+        for (si, (t, cond)) in strategies.iter().enumerate() {
+            if !ctx.thorough && (code + si) % 4 != 0 { continue; }
+            idx += 1;
+            let deg = 1 + (idx % 2);
+            let run = Run { coh: idx % 3 == 0, ..Run::plain(Mode::Script(vec![Step::Spec(deg, *t, *cond), Step::Spec(3 - deg, *t, *cond), Step::All(true)]), true, [1, 2, 4, 16][idx % 4], 2) };
+            run_case(ctx, r, "exhaustive-121", &c, &run);
         }
     }
 }
@@ -981,7 +1025,7 @@ fn boundary(ctx: &mut Ctx) {
             d[2] = D { r: 2, c: 2, a: vec![1, 1, 1, 1] };
         }
         let c = Cx { k, n: n.clone(), d };
-        for mode in [Mode::Reduce, Mode::ReducedApi, Mode::Script(vec![Step::Spec(1, PivotType::Rows, PivotCondition::One)]), Mode::Script(vec![Step::Spec(0, PivotType::Cols, PivotCondition::AnyUnit), Step::All(true)])] {
+        for mode in [Mode::Reduce, Mode::ReducedApi, Mode::ReducedTwice, Mode::Script(vec![Step::Spec(1, PivotType::Rows, PivotCondition::One)]), Mode::Script(vec![Step::Spec(0, PivotType::Cols, PivotCondition::AnyUnit), Step::All(true)])] {
             for coh in [false, true] {
                 let run = Run { coh, ..Run::plain(mode.clone(), true, 1, k) };
                 run_case(ctx, &mut r, "boundary", &c, &run);
@@ -999,7 +1043,8 @@ fn main() {
     let thorough = args.thorough();
     let mut ctx = Ctx { s: &mut sink, pools: &pools, thorough };
     boundary(&mut ctx);
-    let base = if thorough { 4000 } else { 400 };
+    let mut r = rng.fork(); exhaustive(&mut ctx, &mut r);
+    let base = if thorough { 12000 } else { 400 };
     let mut r = rng.fork(); ring_stream::<i64>(&mut ctx, &mut r, base * 2);
     let mut r = rng.fork(); ring_stream::<Ratio<i64>>(&mut ctx, &mut r, base / 2);
     let mut r = rng.fork(); ring_stream::<FF2>(&mut ctx, &mut r, base);
@@ -1012,7 +1057,7 @@ fn main() {
     let mut r = rng.fork(); kh_stream::<Ratio<i64>>(&mut ctx, &mut r, &[(Ratio::from(0), Ratio::from(0))]);
     let mut r = rng.fork(); kh_stream::<ZH>(&mut ctx, &mut r, &[(ZH::variable(), ZH::from_const(0)), (ZH::from_const(0), ZH::from_const(0))]);
     // the Schur step against its code model
-    let sc = if thorough { 3000 } else { 300 };
+    let sc = if thorough { 10000 } else { 300 };
     let mut r = rng.fork(); schur_stream::<i64>(&mut ctx, &mut r, sc);
     let mut r = rng.fork(); schur_stream::<Ratio<i64>>(&mut ctx, &mut r, sc / 2);
     let mut r = rng.fork(); schur_stream::<FF2>(&mut ctx, &mut r, sc / 2);
